@@ -64,6 +64,7 @@ func smallPDFSpec(r *sim.Rand) pdfw.DocSpec {
 	sp.Pages = 1 + r.Intn(2)
 	sp.Lines = 1 + r.Intn(3)
 	sp.BigStream = 0
+	sp.Bulk = 0
 	if len(sp.FontKinds) > 2 {
 		sp.FontKinds = sp.FontKinds[:2]
 	}
